@@ -225,10 +225,8 @@ theorem neg_fin (a : AbsFmt) (x : RF) (hx : a.finMem x)
 
 /-! ### `__abs__` -/
 
-/-- absolute value of a finite member — provided a negative member's magnitude does not
-exceed `pos_bound` (the code keeps `pos_bound` and ignores `neg_bound`) -/
-theorem abs_fin (a : AbsFmt) (x : RF) (hx : a.finMem x)
-    (hsym : x.c ≠ 0 → x.s = true → a.pos.above x.abs) : a.abs'.finMem x.abs := by
+/-- absolute value of a finite member -/
+theorem abs_fin (a : AbsFmt) (x : RF) (hx : a.finMem x) : a.abs'.finMem x.abs := by
   by_cases hc : x.c = 0
   · have hc' : x.abs.c = 0 := hc
     rw [finMem_zero _ _ hc']
@@ -241,17 +239,22 @@ theorem abs_fin (a : AbsFmt) (x : RF) (hx : a.finMem x)
     have hm := (finMem_iff a x g hc hgx hap han).1 hx
     have hgx' : g ≤ x.abs.exp := hgx
     have hzero : (Bnd.fin (RF.ofInt 0)).okAt g := Or.inl rfl
-    rw [finMem_iff a.abs' x.abs g hc' hgx' hap hzero]
+    have hpn : a.pos ≠ .nan := by intro h; rw [h] at hm; exact hm.2.2
     have hnn := abs_sc_nonneg x g
-    refine ⟨?_, ?_, ?_⟩
+    -- the new upper bound max(pos_bound, -neg_bound) covers |x|
+    have hub : (Bnd.max2 a.pos a.neg.neg).okAt g ∧ (Bnd.max2 a.pos a.neg.neg).ub g (x.abs.sc g) := by
+      cases hs : x.s
+      · rw [abs_sc_of_pos x g hs]
+        exact Bnd.max2_ub _ _ g _ hap (Bnd.neg_okAt han) hpn (Or.inl hm.2.2)
+      · rw [abs_sc_of_neg x g hs]
+        exact Bnd.max2_ub _ _ g _ hap (Bnd.neg_okAt han) hpn (Or.inr (Bnd.neg_ub_of_lb _ _ _ hm.2.1))
+    rw [finMem_iff a.abs' x.abs g hc' hgx' hub.1 hzero]
+    refine ⟨?_, ?_, hub.2⟩
     · cases hs : x.s
       · rw [abs_sc_of_pos x g hs]; exact hm.1
       · rw [abs_sc_of_neg x g hs]; exact IW_neg hm.1
     · show (RF.ofInt 0).sc g ≤ x.abs.sc g
       rw [ofInt_zero_sc]; exact hnn
-    · cases hs : x.s
-      · rw [abs_sc_of_pos x g hs]; exact hm.2.2
-      · exact (Bnd.above_iff a.pos x.abs g hap (Or.inr hgx')).1 (hsym hc hs)
 
 /-! ### `__or__` -/
 
@@ -440,10 +443,10 @@ theorem precFits_sound (a : AbsFmt) (pb : Nat) (hpb : pb ≠ 0) (g X : Int)
     | none => rw [hp] at hgt; simp [precGt] at hgt
     | some pa => rw [hp] at hgt; simp [precGt] at hgt; exact ⟨pa, rfl, hgt⟩
 
-theorem leRepaired_unfold {a b : AbsFmt} (h : a.leRepaired b = true) :
+theorem le_unfold {a b : AbsFmt} (h : a.le b = true) :
     specialsContainedIn a b = true ∧ expGt b.exp a.exp = false ∧ Bnd.lt b.pos a.pos = false ∧
       Bnd.gt b.neg a.neg = false ∧ (∀ pb, b.prec = some pb → precFits a pb = true) := by
-  unfold leRepaired at h
+  unfold AbsFmt.le at h
   cases h1 : specialsContainedIn a b <;> simp [h1] at h
   cases h2 : expGt b.exp a.exp <;> simp [h2] at h
   cases h3 : Bnd.lt b.pos a.pos <;> simp [h3] at h
@@ -451,10 +454,10 @@ theorem leRepaired_unfold {a b : AbsFmt} (h : a.leRepaired b = true) :
   refine ⟨rfl, rfl, rfl, rfl, fun pb hpb => ?_⟩
   rw [hpb] at h; exact h
 
-/-- inclusion claimed by the repaired `<=` holds for finite members -/
-theorem leRepaired_fin (a b : AbsFmt) (hb : b.WF) (h : a.leRepaired b = true) (x : RF)
+/-- inclusion claimed by `<=` holds for finite members -/
+theorem le_fin (a b : AbsFmt) (hb : b.WF) (h : a.le b = true) (x : RF)
     (hx : a.finMem x) : b.finMem x := by
-  obtain ⟨hsp, hexp, hpos, hneg, hprec⟩ := leRepaired_unfold h
+  obtain ⟨hsp, hexp, hpos, hneg, hprec⟩ := le_unfold h
   by_cases hc : x.c = 0
   · rw [finMem_zero _ _ hc] at *
     intro hs
@@ -480,12 +483,12 @@ theorem leRepaired_fin (a b : AbsFmt) (hb : b.WF) (h : a.leRepaired b = true) (x
       have hpb0 : pb ≠ 0 := fun h0 => hb.2.2 (by rw [hbprec, h0])
       exact precFits_sound a pb hpb0 g _ hap han (by omega) (hprec pb hbprec) hm.1 hm.2.1 hm.2.2 b.exp hE
 
-/-- under the excluded-region hypothesis the real `<=` agrees with the repaired one -/
-theorem le_imp_leRepaired (a b : AbsFmt) (h : a.le b = true)
+/-- outside the region where it skipped the precision test, the legacy `<=` agrees with today's -/
+theorem leLegacy_imp_le (a b : AbsFmt) (h : a.leLegacy b = true)
     (hx : b.exp = none → ∀ pb, b.prec = some pb → precGt a.prec (some pb) = false) :
-    a.leRepaired b = true := by
-  unfold AbsFmt.le at h
-  unfold leRepaired
+    a.le b = true := by
+  unfold AbsFmt.leLegacy at h
+  unfold AbsFmt.le
   cases h1 : specialsContainedIn a b <;> simp [h1] at h ⊢
   cases h2 : expGt b.exp a.exp <;> simp [h2] at h ⊢
   cases h3 : Bnd.lt b.pos a.pos <;> simp [h3] at h ⊢
